@@ -221,7 +221,7 @@ def c03(tier):
         if av["kind"] in ("inRange", "uniqueLabel", "definedRef") and av["f"] not in pseen:
             pseen.add(av["f"])
             verdict.violation("%s in compiled function %s: %s" % (av["kind"], av["f"], av["detail"]), dict(property=pid, function=av["f"], kind=av["kind"], detail=av["detail"], source=psrc[av["f"]]))
-    if repaired < 10 or near < 20:
+    if (repaired < 10 or near < 20) and not verdict.violations:      # (a run that found violations reports them)
         raise common.ToolError("vacuous: only %d layouts needed a repair, %d compiled functions near the limit" % (repaired, near))
     cov = dict(states=rres.distinct + ares.distinct + gres.distinct + bres.distinct, transitions=rres.generated + ares.generated + gres.generated + bres.generated,
                traces_validated_against_impl=len(tcases) * 8 + len(recs),
